@@ -257,6 +257,8 @@ def run(ctx):
              '(a sizeof of a different, smaller or larger, member type-checks and truncates or overflows silently)', floor=60)
     from engine.sizeofrule import sizeof_match
     sizeof_match(ctx, prog)
+    from engine.fixture import generic_fixture
+    generic_fixture(ctx, [('SIZEOF-MATCH', lambda c_, p_: sizeof_match(c_, p_, minimum=0), 'bad_sizeof')])
 
     ctx.rule('ZERO-GROWN', 'shared with C03 HDR-CACHE: memory added to the header cache by realloc is zero-filled before use, so no byte of an earlier handle\'s heap data can reach a file written later', floor=1)
     from rules.C03 import hdr_zero
